@@ -91,7 +91,8 @@ func (s *server) code(status t_api.StatusCode) codes.Code {
 		t_api.StatusNoContent:
 		return codes.OK
 	case
-		t_api.StatusFieldValidationError:
+		t_api.StatusFieldValidationError,
+		t_api.StatusCallbackInvalidPromise:
 		return codes.InvalidArgument
 	case
 		t_api.StatusPromiseAlreadyResolved,
@@ -108,7 +109,8 @@ func (s *server) code(status t_api.StatusCode) codes.Code {
 		t_api.StatusPromiseNotFound,
 		t_api.StatusScheduleNotFound,
 		t_api.StatusLockNotFound,
-		t_api.StatusTaskNotFound:
+		t_api.StatusTaskNotFound,
+		t_api.StatusPromiseRecvNotFound:
 		return codes.NotFound
 	case
 		t_api.StatusPromiseAlreadyExists,
@@ -118,6 +120,7 @@ func (s *server) code(status t_api.StatusCode) codes.Code {
 	case
 		t_api.StatusInternalServerError,
 		t_api.StatusAIOEchoError,
+		t_api.StatusAIOMatchError,
 		t_api.StatusAIOQueueError,
 		t_api.StatusAIOStoreError:
 		return codes.Internal
